@@ -8,7 +8,7 @@ import numpy
 from hypothesis import strategies as st
 
 from pbt import files, lattice
-from pbt.core import call, draw_tz
+from pbt.core import call, draw_tz, workdir
 
 PROP = "C04"
 TECHNIQUE = "Hypothesis-generated catalogs x statement lists x application plans vs. list-comprehension reference filter; metamorphic relations (order, grouping, idempotence, datetime==origin_time, non-mutation); spatial filter vs. exact containment oracle"
@@ -75,6 +75,8 @@ def check_case(ctx, case):
         return CSEPCatalog(data=list(events), catalog_id=3, name="c")
 
     def apply(cat, arg):
+        if case.get("positional"):
+            return cat.filter(arg, in_place)        # documented signature filter(statements, in_place): both positional
         r = cat.filter(arg, in_place=in_place)
         return r
 
@@ -129,7 +131,7 @@ def check_case(ctx, case):
         o = call(stale)
         want = list(events)
     elif plan == "load_catalog":
-        with tempfile.TemporaryDirectory() as d:
+        with workdir() as d:
             p = os.path.join(d, "cat.csv")
             files.write_csep_csv(p, events, catalog_id=3, frac="us")
             o = call(lambda: csep.load_catalog(p, filters=list(strs), apply_filters=True))
@@ -146,7 +148,7 @@ def check_case(ctx, case):
             if sure:
                 inside.append(e)
         want = inside
-        with tempfile.TemporaryDirectory() as d:
+        with workdir() as d:
             p = os.path.join(d, "cat.csv")
             files.write_csep_csv(p, events, catalog_id=3, frac="us")
             o = call(lambda: csep.load_catalog(p, filters=list(strs), region=region, apply_filters=True))
@@ -275,6 +277,8 @@ def cases(draw, max_events=40):
         stmts.append([a, draw(st.sampled_from(list(OPS))), v])
     plan = draw(st.sampled_from(["list", "list", "tuple", "single_str", "chained", "repeated", "permuted", "load_catalog", "stale_then_empty", "notinplace_then_inplace", "ctor_filters_then_filter"]))
     case = {"k": "filter", "events": ev, "stmts": stmts, "plan": plan, "in_place": draw(st.booleans())}
+    if draw(st.integers(0, 3)) == 0:
+        case["positional"] = True
     if plan in ("chained", "permuted", "stale_then_empty", "ctor_filters_then_filter"):
         case["order"] = list(draw(st.permutations(list(range(ns)))))
     if plan == "load_catalog" and draw(st.booleans()):
